@@ -329,8 +329,79 @@ func genHair(t *rapid.T) Case {
 	return c
 }
 
+// genMixedMagnitudes: magnitudes hundreds of binades apart within one pair of segments.
+// One segment runs from the origin (or a denormal's breadth from it) to a point beyond
+// 2^500; the other starts a tiny distance (2^-1074 .. 2^-500) from the first one's near
+// end - on it, beside it, or at it - and leads to a point of any size. No single unit
+// brings all four points into a comfortable range: scaled down the tiny ones vanish,
+// scaled up the far ones overflow. Classification only (exact in rational arithmetic).
+func genMixedMagnitudes(t *rapid.T) Case {
+	pow := func(l string, lo, hi int) float64 {
+		v := math.Ldexp(float64(rapid.IntRange(1, 7).Draw(t, l+"m")), rapid.IntRange(lo, hi).Draw(t, l+"e"))
+		if rapid.Bool().Draw(t, l+"neg") {
+			v = -v
+		}
+		return v
+	}
+	tinyOrZero := func(l string) float64 {
+		if rapid.IntRange(0, 2).Draw(t, l+"zero") == 0 {
+			return 0
+		}
+		return pow(l, -1074, -500)
+	}
+	var c Case
+	c.P[0] = [2]model.F{model.Of(tinyOrZero("ax")), model.Of(tinyOrZero("ay"))}
+	c.P[1] = [2]model.F{model.Of(pow("bx", 500, 1018)), model.Of(pow("by", 500, 1018))}
+	if rapid.Bool().Draw(t, "isotropic") {
+		// both ordinates of the far end in the same binade (a far point on a diagonal)
+		e := rapid.IntRange(500, 1018).Draw(t, "be")
+		c.P[1] = [2]model.F{model.Of(math.Ldexp(float64(rapid.IntRange(1, 7).Draw(t, "bmx")), e)), model.Of(math.Ldexp(float64(rapid.IntRange(1, 7).Draw(t, "bmy")), e))}
+	}
+	switch rapid.IntRange(0, 3).Draw(t, "start") {
+	case 0: // at the near end itself
+		c.P[2] = c.P[0]
+	case 1, 2: // on the first segment's line a tiny step along it, or a unit in the last place beside that
+		k := math.Ldexp(1, rapid.IntRange(-2090, -1010).Draw(t, "along"))
+		x, y := c.P[0][0].V()+c.P[1][0].V()*k, c.P[0][1].V()+c.P[1][1].V()*k
+		if rapid.Bool().Draw(t, "beside") {
+			if rapid.Bool().Draw(t, "besidex") {
+				x = nudge(x, rapid.SampledFrom([]int{-2, -1, 1, 2}).Draw(t, "ulpx"))
+			} else {
+				y = nudge(y, rapid.SampledFrom([]int{-2, -1, 1, 2}).Draw(t, "ulpy"))
+			}
+		}
+		c.P[2] = [2]model.F{model.Of(x), model.Of(y)}
+	default: // a tiny distance off
+		c.P[2] = [2]model.F{model.Of(tinyOrZero("cx")), model.Of(tinyOrZero("cy"))}
+	}
+	switch rapid.IntRange(0, 2).Draw(t, "end") {
+	case 0:
+		c.P[3] = [2]model.F{model.Of(pow("dx", -20, 20)), model.Of(pow("dy", -20, 20))}
+	case 1:
+		c.P[3] = [2]model.F{model.Of(pow("dx", 500, 1018)), model.Of(pow("dy", 500, 1018))}
+	default:
+		c.P[3] = [2]model.F{model.Of(tinyOrZero("dx")), model.Of(tinyOrZero("dy"))}
+	}
+	if c.P[0] == c.P[1] {
+		c.P[1][0] = model.Of(1)
+	}
+	if c.P[2] == c.P[3] {
+		c.P[3][1] = model.Of(c.P[3][1].V() + 1)
+	}
+	if rapid.Bool().Draw(t, "swap") {
+		c.P[0], c.P[1], c.P[2], c.P[3] = c.P[2], c.P[3], c.P[0], c.P[1]
+	}
+	c.Class = "mixed-magnitudes"
+	return c
+}
+
 func genCase(t *rapid.T) Case {
 	var c Case
+	if rapid.IntRange(0, 19).Draw(t, "mixedmag") == 13 {
+		c = genMixedMagnitudes(t)
+		c.Extra = rapid.SampledFrom([]int{0, 0, 1, 2}).Draw(t, "extra")
+		return c
+	}
 	if k := rapid.IntRange(0, 9).Draw(t, "float"); k == 9 {
 		c = genHair(t)
 	} else if k == 0 {
